@@ -118,16 +118,34 @@ func (m DistributedExecutionOptimizer) makeSubQueries(current *parser.Expr, engi
 	return remoteQueries
 }
 
-// selectsSeries reports whether the expression contains a selector.
+// selectsSeries reports whether the expression contains a selector. The expression may hold
+// nodes of this package (parser.Inspect panics on those): they all stand for selected series.
 func selectsSeries(expr parser.Expr) bool {
-	found := false
-	parser.Inspect(expr, func(node parser.Node, _ []parser.Node) error {
-		if _, ok := node.(*parser.VectorSelector); ok {
-			found = true
+	switch e := expr.(type) {
+	case *parser.NumberLiteral, *parser.StringLiteral:
+		return false
+	case *parser.StepInvariantExpr:
+		return selectsSeries(e.Expr)
+	case *parser.AggregateExpr:
+		return selectsSeries(e.Expr) || (e.Param != nil && selectsSeries(e.Param))
+	case *parser.Call:
+		for _, arg := range e.Args {
+			if selectsSeries(arg) {
+				return true
+			}
 		}
-		return nil
-	})
-	return found
+		return false
+	case *parser.BinaryExpr:
+		return selectsSeries(e.LHS) || selectsSeries(e.RHS)
+	case *parser.UnaryExpr:
+		return selectsSeries(e.Expr)
+	case *parser.ParenExpr:
+		return selectsSeries(e.Expr)
+	case *parser.SubqueryExpr:
+		return selectsSeries(e.Expr)
+	}
+	// Vector and matrix selectors, and the nodes other optimizers put in their place.
+	return true
 }
 
 func isDistributive(expr *parser.Expr) bool {
